@@ -50,11 +50,14 @@
      * C10_linesearch_on_line (all types) / C10_linesearch_on_ray (wolfecubic, backtracking; oracle without negative
          proposals).  dlinmin does NOT stay on the ray: C10_ex_dlinmin_steps_backward (model run; the C++ is run on
          the same input by tools/c10.py: harness/c10_findings.txt).
-     * C10_wolfecubic_undefined_iff   the model returns None exactly where the C++ reads bracket/bracketf/bracketg
-         without having assigned them: after maxIter = 25 expansions that all pass the three bracketing tests (e.g. any
-         linear objective: C10_ex_wolfecubic_undefined_on_linear_objective) or a strong-Wolfe point found in expansion 25
-         with no decrease.  DEFECT of /repo, reported (harness/c10_findings.txt: the result depends on stack contents).
-         C10_linesearch_run_defined: runs are defined unless one of their calls is.
+     * C10_linesearch_call_defined, C10_linesearch_run_defined   the model returns None exactly where the C++ reads a
+         variable it never assigned.  Since the repair 1272c59f (after maxIter = 25 expansions that all pass the three
+         bracketing tests - e.g. any linear objective - the last tested point, which satisfies the sufficient-decrease
+         test, is taken; consistency / never-increases / on-ray cover that path) every call with t0 >= 0 and every run
+         of every line-search optimizer is defined, for every oracle.  C10_wolfecubic_undefined_iff: the one path left
+         (strong-Wolfe point found in expansion 25 without decrease: bracketf[1] read unassigned) needs t0 < 0
+         (C10_ex_wolfecubic_negative_step_undefined); no caller passes a negative step length.  Regression witness of the
+         old behaviour: old_wolfecubic, C10_ex_wolfecubic_linear_objective_regression; inputs in harness/c10_findings.txt.
      * C10_linesearch_monotone_all_types_partial   whole runs, all types, for direction rules without ascent directions.
    Part 3: BFGS (bfgs_update / bfgs_dir in C10LsModel.v, C10BfgsProofs.v):
      * C10_bfgs_update_symmetric (+ C10_bfgs_symmetry_is_entrywise), C10_bfgs_update_quadratic_form
@@ -87,6 +90,14 @@
    minimiser reached within the step budget (CG/BFGS/L-BFGS on quadratics with condition <= 1e4),
    save-at-k / restore into a fresh differently initialised instance / continue equality; single line-search calls:
    consistency, no increase, result independent of the previous stack contents.
+   OBSERVED, outside the model: wlsCubicInterp returns NaN (0/0) when the two bracket ends have equal values and opposite
+   slopes with the lower end rising, more generally (f2-f1)/(t2-t1) = (g1+g2)/6 with g1 >= g2; wolfecubic then evaluates
+   the objective at a NaN point.  In the check this happened only along ASCENT directions (incoming g'd > 0; 4 of 60000
+   calls on the hash objective, whose gradient is not the derivative of its value), never with g'd < 0: the first bracket
+   [0, t] cannot be degenerate then (its lower end has the most negative slope and the upper end failed a test), and on a
+   convex objective g1 >= g2 forces a flat piece, where the search has already stopped.  No input with a consistent state, a
+   descent direction and a differentiable objective was found; BFGS never passes an ascent direction
+   (C10_bfgs_direction_descent).  Such calls are counted (nonfinite) and not compared.
    NOT COVERED: convergence proofs; the numerics of the interpolation / Brent / golden-section steps (that the oracle's
    proposals are the ones the formulas give; that wolfecubic's result satisfies the Wolfe conditions); the L-BFGS
    two-loop recursion and dog-leg; CG's direction is not a descent direction as coded; TrustRegionNewton, which is
@@ -253,14 +264,24 @@ Theorem C10_linesearch_on_ray :
 Proof. exact linesearch_on_ray. Qed.
 Print Assumptions C10_linesearch_on_ray.
 
-(* exactly when wolfecubic reads bracket / bracketf / bracketg without having assigned them *)
+(* DEFINEDNESS.  Since the repair 1272c59f of /repo (all maxIter expansions succeed: the last tested point is taken)
+   every call with a non-negative initial step length is defined: every type, every oracle, every objective, consistent
+   incoming state or not *)
+Theorem C10_linesearch_call_defined :
+  forall (f : vec -> Q) (grad : vec -> vec) (ty : nat) (o : ls_oracle) (point d : vec) (value : Q) (g : vec) (t0 : Q),
+    0 <= t0 -> linesearch f grad ty o point d value g t0 <> None.
+Proof. exact linesearch_defined. Qed.
+Print Assumptions C10_linesearch_call_defined.
+
+(* what remains undefined (reads bracketf[1] unassigned): exactly a strong-Wolfe point found in bracketing iteration
+   maxIter whose value is not below the old one; by the theorem above this needs t0 < 0, which no caller in the library
+   passes (C10_ex_wolfecubic_negative_step_undefined shows that it is reachable then) *)
 Theorem C10_wolfecubic_undefined_iff :
   forall (f : vec -> Q) (grad : vec -> vec) (o : ls_oracle) (point d : vec) (value : Q) (g : vec) (t0 : Q),
     wolfecubic f grad o point d value g t0 = None <->
     match wc_bracketing f grad wc_max_iter 1 (o_wexp o) point d value (dot g d) (0, value, g) (eval3 f grad point d t0) with
-    | WB_exhausted => True
     | WB_single e0 iter => (wc_max_iter <= iter)%nat /\ value <= e_f e0
-    | WB_pair _ _ _ => False
+    | _ => False
     end.
 Proof. exact wolfecubic_undefined_iff. Qed.
 Print Assumptions C10_wolfecubic_undefined_iff.
@@ -275,14 +296,13 @@ Theorem C10_linesearch_state_consistent_all_types :
 Proof. exact linesearch_state_consistent_all_types. Qed.
 Print Assumptions C10_linesearch_state_consistent_all_types.
 
-(* a run is defined as soon as none of its line-search calls is undefined *)
+(* every run of every line-search optimizer is defined: init leaves a non-negative step length, step sets it to 1 *)
 Theorem C10_linesearch_run_defined :
-  forall (f : vec -> Q) (grad : vec -> vec) (M : Type) (compute_dir : ls_state M -> M * vec)
-         (orcs : nat -> ls_oracle) (n k : nat) (s : ls_state M),
-    (forall j s1, (j < n)%nat -> ls_run_o f grad M compute_dir orcs k j s = Some s1 ->
-       linesearch f grad (ls_type s1) (orcs (k + j)%nat) (pt s1) (sdir s1) (val s1) (der s1) (step_len s1) <> None) ->
-    ls_run_o f grad M compute_dir orcs k n s <> None.
-Proof. exact run_o_defined. Qed.
+  forall (f : vec -> Q) (grad : vec -> vec) (feasible : vec -> bool)
+         (M : Type) (init_model : nat -> M) (compute_dir : ls_state M -> M * vec)
+         (constrained : bool) (lstype : nat) (x0 : vec) (orcs : nat -> ls_oracle) (n : nat),
+    exists s, ls_run_o f grad M compute_dir orcs 0 n (ls_init_o f grad feasible M init_model constrained lstype x0) = Some s.
+Proof. exact run_o_total. Qed.
 Print Assumptions C10_linesearch_run_defined.
 
 (* full statement (not proved): without the hypothesis on compute_dir for CG (false as coded) and L-BFGS *)
@@ -384,8 +404,14 @@ Example C10_ex_penalised_objective : forall x y, box_feas x = false -> box_feas 
 Proof. exact box_f_infeasible_worse. Qed.
 Example C10_ex_ascent_direction_accepted : backtracking asc_f asc_grad [-1] [1] 0 [20000] 1 = ([0], 1, [20000]).
 Proof. exact backtracking_ascent_example. Qed.
-Example C10_ex_wolfecubic_undefined_on_linear_objective : wolfecubic lin_f lin_grad id_oracle [0] [1] 0 [-1] 1 = None.
-Proof. exact wolfecubic_linear_undefined. Qed.
+(* regression witness of the repaired defect: the pre-repair wolfecubic is undefined on a linear objective *)
+Example C10_ex_wolfecubic_linear_objective_regression :
+  old_wolfecubic lin_f lin_grad id_oracle [0] [1] 0 [-1] 1 = None /\
+  wolfecubic lin_f lin_grad id_oracle [0] [1] 0 [-1] 1
+    = Some ([1000000000000000000000000], - (1000000000000000000000000), [-1]).
+Proof. exact wolfecubic_linear_regression. Qed.
+Example C10_ex_wolfecubic_negative_step_undefined : wolfecubic neg_f neg_grad id_oracle [0] [1] 0 [-1] (-1) = None.
+Proof. exact wolfecubic_negative_step_undefined. Qed.
 Example C10_ex_wolfecubic_defined : wolfecubic par_f par_grad half_oracle [0] [1] 0 [-1] 1 = Some ([1 # 2], - (1 # 4), [0]).
 Proof. exact wolfecubic_parabola. Qed.
 Example C10_ex_oracle_without_negative_steps :
